@@ -45,6 +45,13 @@ Proof.
 Qed.
 Print Assumptions C05_zenith_angle_partials.
 
+(* a zenith angle read in the second face (above 200 gon) is 2 pi - za: every partial derivative changes sign
+   (LocalLinearization::z_angle mirrored only the computed value before the repair) *)
+Theorem C05_zenith_angle_second_face_partials d dz : 0 < d ->
+  is_derive (fun t => zen2 d t) dz (- (- d / (d ^ 2 + dz ^ 2))) /\ is_derive (fun t => zen2 t dz) d (- (dz / (d ^ 2 + dz ^ 2))).
+Proof. intro Hd. split; [apply zen2_ddz | apply zen2_dd]; exact Hd. Qed.
+Print Assumptions C05_zenith_angle_second_face_partials.
+
 (* angular right-hand sides: after the two loops the value lies in [-h, h] (h = 200 gon in cc) and differs from
    observed - computed by a whole number of circles, for every magnitude the fuel covers *)
 Theorem C05_rhs_reduced_to_half_circle n h a : 0 < h -> Rabs a <= h + 2 * h * INR n ->
